@@ -308,7 +308,8 @@ def mapColumn (side : String) (col : Col) (map_ : Option (List Int)) (inv : Int)
     | .ok out => .ok (.flat empty out)
     | .error e => .error e
   | .ok (.istream p), some m, .indexed ix vs =>
-    match MapValid.orderedMapValidIndexedStream ix vs m (if p then inv else -1) cs vf with
+    -- `_ordered_merge` passes no `value_factor`: the stream sizes its value buffer itself (fix NC02c), `vf` is its floor
+    match MapValid.orderedMapValidIndexedStream ix vs m (if p then inv else -1) cs (MapValid.autoValueFactor vf ix cs) with
     | .ok out => .ok (.indexed out.1 out.2)
     | .error e => .error e
   | .ok _, _, _ => .error badTable
